@@ -117,52 +117,6 @@ inductive Dom : UTree → Prop
           (isConstT a = true ∨ isConstT b = true ∨ ∀ s, dimT [] a s = dimT [] b s))) →
       Dom (.bin op a b)
 
-theorem dimU_nil (u : Units) (hu : WF u) (s : Sym) : dimU [] u s = expOf u s := by
-  induction u with
-  | nil => rfl
-  | cons p r ih =>
-    obtain ⟨k, e⟩ := p
-    have hr := WF_tail hu
-    simp only [dimU, List.map_cons, sumRat, dimSym, expOf_cons] at *
-    rw [ih hr]
-    by_cases hks : k = s
-    · subst hks
-      simp only [WF, List.map_cons, List.nodup_cons] at hu
-      rw [expOf_eq_zero_of_not_mem r k hu.1]
-      simp [Rat.mul_one, Rat.add_zero]
-    · simp [hks, Rat.mul_zero, Rat.zero_add]
-
-theorem unitOf_const_flag (t : UTree) (r : Units × Bool × Nat) (h : unitOf [] t = some r) :
-    r.2.1 = isConstT t := by
-  cases t with
-  | leaf u => simp [unitOf] at h; subst h; rfl
-  | const => simp [unitOf] at h; subst h; rfl
-  | powc a k =>
-    simp only [unitOf] at h
-    split at h
-    · simp at h; subst h; rfl
-    · cases h
-  | un op a =>
-    simp only [unitOf] at h
-    split at h
-    · simp only [guarded] at h
-      split at h
-      · split at h
-        · simp at h; subst h; rfl
-        · cases h
-      · simp at h; subst h; rfl
-    · cases h
-  | bin op a b =>
-    simp only [unitOf] at h
-    split at h
-    · simp only [guarded] at h
-      split at h
-      · split at h
-        · simp at h; subst h; rfl
-        · cases h
-      · simp at h; subst h; rfl
-    · cases h
-
 theorem all_guard_un (ra : Units × Bool × Nat) (a : UTree) (hr : unitOf [] a = some ra)
     (h : HasUnit a) : (!ra.1.isEmpty || ra.2.1) = true := by
   rcases h with h | ⟨r, h1, h2⟩
